@@ -20,6 +20,8 @@ POOLS = {
           'for i in j: pass\n', ' \\\n'],
     'C': ['\ufeffa\n', 'try:\n', '    pass\n', 'except:\n', 'finally:\n', "s = '''\n", 'x = [1,\n', ']\n', '\tz\n',
           'lambda\n', 'while 1:\n', '  else'],
+    'E': ['@d\n', 'async def f():\n', '    a\n', '    b\n', 'x\n', 'class C:\n', '    @e\n', '    async def m(s):\n',
+          '        c\n', 'def g():\n'],
     'D': ['@d\n', 'def g(a,\n', '      b):\n', '    if a: b\n', '    elif c:\n', "        f'{a\n", '    x = 1  # c\n',
           'class D(E):\n', '    """d"""\n', 'return\n', '\r\n', "  '"],
 }
@@ -40,6 +42,8 @@ BASES = [
     'try:\n    a\nexcept B:\n    c\nelse:\n    d\nfinally:\n    e\nasync def f():\n    async with a:\n        async for b in c:\n            pass\n',
     'x = """\ndef f():\n    pass\n"""\ndef g():\n    """doc\n    more\n    """\n    return x\n',
     '@a\n@b\ndef f(): pass\n@c\nclass D: pass\n@e\nasync def g(): pass\n',
+    '@dec\nasync def f():\n    a\nx\n',
+    'class K:\n    @dec\n    async def m(self):\n        a\n    y = 1\n@d2\nasync def g():\n    async with a:\n        pass\n@d3\nclass L:\n    z\n',
 ]
 FRAGMENTS = ['(', ')', '"""', ':', '#', ' ', '\n', "f'{"]
 EDIT_LINES = ['def n():\n', '    q = 1\n', 'class N:\n', '(\n', ')\n', '"""\n', '\n', '  z\n', '@dec\n', 'else:\n',
